@@ -28,6 +28,9 @@ CHECKS = {
  "C08": ("Op-lists that emit and then fail at every position (throw, timeout, bad return, unserialisable emission), as actions and guards, at every position of walks: the recorded Stride.Emitted / Walked.DoEmitted must equal the model's emission sequence (nothing from failed actions or from guards, order kept).",
          "8.C08", "crew-level reporting of emissions is covered by the C14 check when built; native partial executions are the named deviation NativePartial (outside the quantifier)",
          "TLA+ action-language semantics (Actions.tla: atomic emission) + TLC trace judge"),
+ "C09": ("Persist is a stuttering step of the reference machine (a state is plain JSON data); recorded histories are run twice on the real engine, one run marshalling/unmarshalling the State at chosen message boundaries; TLC judges PersistUnobservable (states and emissions equal step by step), for deterministic specs (DetSpec re-checked in TLA+).",
+         "8.C09", "histories of <=4 messages with save points at every subset sampled; values: integers, fractions, nested arrays/objects, nulls, error states with lastBindings; representation differences are observed behaviourally",
+         "TLA+ Persist-as-stuttering (Trace_Persist.tla) + TLC judge over paired runs of the real engine"),
  "C18": ("Actions and guards (native and ECMAScript) that delete, overwrite, replace wholesale, return null, fail or reject, over states with permanent and ordinary bindings: TLC checks PermanentKept on every recorded result and that no call crashed.",
          "8.C18", "seeded generation biased to permanent bindings; permanent names classified by the encoder",
          "TLA+ Restore/PermanentKept (Actions.tla) + TLC trace judge over recorded steps"),
